@@ -37,6 +37,12 @@ type descriptor struct {
 	// instance can only complete if the sub-process notices that this start
 	// event has fired although its token never left it
 	SubDead bool `json:"subDead,omitempty"`
+	// PreWait: WaitUntilComplete is called BEFORE the instance is started: 1 with
+	// a context that has already expired, 2 with a live context. What such a
+	// call answers is not judged (no start event has fired, the statement does
+	// not say), only that it returns - and that it leaves nothing behind that
+	// changes the answers given after the start.
+	PreWait int `json:"preWait,omitempty"`
 }
 
 func build(d descriptor) *gen.Graph {
@@ -164,6 +170,32 @@ func runCase(d descriptor) *result {
 			r.Gs = quiesce.Dump(gs)
 		}
 		return r
+	}
+	if d.PreWait > 0 {
+		pctx, pcancel := context.WithCancel(context.Background())
+		if d.PreWait == 1 {
+			pcancel()
+		}
+		pre := make(chan bool, 1)
+		go func() { pre <- in.P.WaitUntilComplete(pctx) }()
+		gs, qerr := in.Quiesce()
+		if qerr != nil {
+			pcancel()
+			r.Inconcl = qerr.Error()
+			return r
+		}
+		select {
+		case <-pre:
+		default:
+			// a live wait on an instance that was never started may legitimately
+			// still be waiting; an expired one must have returned
+			if d.PreWait == 1 {
+				pcancel()
+				return fail("wait-blocked", "a wait issued before the start with an expired context has not returned", gs)
+			}
+		}
+		pcancel()
+		r.History = append(r.History, fmt.Sprintf("wait before the start (context expired: %v)", d.PreWait == 1))
 	}
 	startDone := make(chan error, 1)
 	go func() { startDone <- in.StartAll() }()
@@ -364,7 +396,7 @@ func draw(rt *rapid.T) descriptor {
 	}
 	d := descriptor{Starts: rapid.IntRange(1, maxStarts).Draw(rt, "starts"), Merge: rapid.Bool().Draw(rt, "merge"), Par: rapid.Bool().Draw(rt, "par"),
 		Perturb: uint64(rapid.IntRange(0, 500).Draw(rt, "perturb")), ForkEnd: rapid.SampledFrom([]int{0, 0, 1, 2}).Draw(rt, "forkEnd"),
-		SubDead: rapid.IntRange(0, 5).Draw(rt, "subDead") == 0}
+		SubDead: rapid.IntRange(0, 5).Draw(rt, "subDead") == 0, PreWait: rapid.SampledFrom([]int{0, 0, 0, 1, 2}).Draw(rt, "preWait")}
 	for i := 0; i < d.Starts; i++ {
 		d.Chain = append(d.Chain, rapid.IntRange(-1, 2).Draw(rt, "chain"))
 	}
@@ -416,6 +448,9 @@ func TestC02Waiters(t *testing.T) {
 		}
 		if d.Merge {
 			cls = append(cls, "merge")
+		}
+		if d.PreWait > 0 {
+			cls = append(cls, "waitBeforeStart")
 		}
 		nt := (r.Waits >= 2 || r.Rewait || d.Starts >= 2) && r.AnsBetween
 		rec.Case("TestC02Waiters", hash, nt, cls, map[string]any{"case": d, "history": r.History})
